@@ -179,7 +179,8 @@ def addLine (g : IR) (line : String) : IR :=
         isUnion := kv rest "ck" == some "union", fwd := flag rest "fwd",
         ownVirtual := flag rest "own_virtual", ownDtor := flag rest "own_dtor",
         tooLargeBf := flag rest "too_large_bf", isPacked := flag rest "is_packed",
-        selfTparams := ((kv rest "tparams").map parseIds).getD [],
+        selfTparams := if tk == .templateAlias then ((kv rest "params").map parseIds).getD []
+                       else ((kv rest "tparams").map parseIds).getD [],
         allTparams := ((kv rest "all_tparams").map parseIds).getD [],
         bases := ((kv rest "bases").map parseBases).getD [],
         tmplDef := kvNat rest "def", tmplArgs := ((kv rest "args").map parseIds).getD [],
